@@ -14,6 +14,7 @@ ID = "C10"
 LEVEL = "fault_enumeration"
 TECHNIQUE = ('deterministic simulation with crash-point enumeration: every byte offset of each seeded stream as cut (EOF) or connection reset, five source front ends, flat and grouped parsers; oracle = correct prefix, no delivered frame lost')
 LEVEL_NOTE = ('streams sampled by seed, crash points enumerated per stream (all offsets up to 800 / 3000 bytes)')
+OPTIMIZED_EVERY = 25      # every 25th run is executed in a child interpreter started with python -O
 RUNS = {"quick": 1600, "thorough": 20000}
 CHUNK = 5
 RULE = ("for each seeded delimited stream (real writer / reference encoder) EVERY byte offset 0..len is used as a "
